@@ -223,6 +223,87 @@ def rule_counter_writers(ctx: Ctx, prog: Program, thorough: bool = False) -> Non
 
 
 # ------------------------------------------------------------------------- R-STATS-MAP
+def _agg_kind(fn: FuncInfo) -> Optional[str]:
+    """'sum' / 'max' when the function is  builtin(int(s[index]) for s in stats)  over its two parameters, else None."""
+    body = [s for s in fn.node.body if not (isinstance(s, ast.Expr) and isinstance(s.value, ast.Constant))]
+    if len(body) == 1 and isinstance(body[0], ast.Return) and isinstance(body[0].value, ast.Call) and len(fn.params) == 2:
+        c = body[0].value
+        if isinstance(c.func, ast.Name) and c.func.id in ("sum", "max") and len(c.args) == 1 and isinstance(c.args[0], (ast.GeneratorExp, ast.ListComp)):
+            g = c.args[0]
+            if len(g.generators) == 1 and not g.generators[0].ifs and ast.unparse(g.generators[0].iter) == fn.params[0]:
+                tv = ast.unparse(g.generators[0].target)
+                if ast.unparse(g.elt).replace(" ", "") in (f"int({tv}[{fn.params[1]}])", f"{tv}[{fn.params[1]}]"):
+                    return c.func.id
+    return None
+
+
+def _stats_entries(prog: Program, fn: FuncInfo) -> List[Tuple[Any, Any, Optional[str], str, int, bool]]:
+    """(label, index, aggregator, source text, line, reads self.statistics) for every entry of the dictionary get_statistics returns.  Two
+    forms are read: a dict literal, and a dict comprehension over (enumerate of) a constant tuple of labels / indices."""
+    rets = [n for n in ast.walk(fn.node) if isinstance(n, ast.Return) and n.value is not None]
+    if len(rets) != 1:
+        raise AnalysisError(f"{fn.fq}: expected a single return")
+    d = rets[0].value
+
+    def entry(lbl: Any, v: ast.expr, env: Dict[str, Any]) -> Tuple[Any, Any, Optional[str], str, int, bool]:
+        """v: [AGG(] self.statistics [, ] index [)]  or  [int(] self.statistics[index] [)]"""
+        src = ast.unparse(v)
+        aggname: Optional[str] = None
+        idx_val: Any = None
+        whole = "self.statistics" in src
+
+        def val(e: ast.expr) -> Any:
+            if isinstance(e, ast.Name) and e.id in env:
+                return env[e.id]
+            r = prog.fold(fn.module, e)
+            return None if r is NO else r
+        core = v
+        if isinstance(core, ast.Call) and isinstance(core.func, ast.Name):
+            aggname = core.func.id
+            if len(core.args) == 2 and ast.unparse(core.args[0]) == "self.statistics":
+                idx_val = val(core.args[1])
+                return (lbl, idx_val, aggname, src, getattr(v, "lineno", 0), whole)
+            if len(core.args) == 1:
+                core = core.args[0]
+        if isinstance(core, ast.Subscript) and ast.unparse(core.value) == "self.statistics":
+            idx_val = val(core.slice)
+        return (lbl, idx_val, aggname, src, getattr(v, "lineno", 0), whole)
+
+    out: List[Tuple[Any, Any, Optional[str], str, int, bool]] = []
+    if isinstance(d, ast.Dict):
+        for k, v in zip(d.keys, d.values):
+            lbl = prog.fold(fn.module, k) if k is not None else NO
+            out.append(entry(lbl if lbl is not NO else (ast.unparse(k) if k is not None else "?"), v, {}))
+        return out
+    if isinstance(d, ast.DictComp) and len(d.generators) == 1 and not d.generators[0].ifs:
+        g = d.generators[0]
+        it = g.iter
+        enum = isinstance(it, ast.Call) and isinstance(it.func, ast.Name) and it.func.id == "enumerate" and len(it.args) == 1
+        seq = prog.fold(fn.module, it.args[0] if enum else it)
+        if seq is NO or not isinstance(seq, tuple):
+            raise AnalysisError(f"{fn.fq}: the table the dictionary is built from is not a constant tuple")
+        for i, item in enumerate(seq):
+            env: Dict[str, Any] = {}
+            tg = g.target
+            if enum and isinstance(tg, ast.Tuple) and len(tg.elts) == 2 and all(isinstance(x, ast.Name) for x in tg.elts):
+                env[tg.elts[0].id] = i
+                env[tg.elts[1].id] = item
+            elif not enum and isinstance(tg, ast.Name):
+                env[tg.id] = item
+            elif not enum and isinstance(tg, ast.Tuple) and isinstance(item, tuple) and len(tg.elts) == len(item) and all(isinstance(x, ast.Name) for x in tg.elts):
+                for x, y in zip(tg.elts, item):
+                    env[x.id] = y
+            else:
+                raise AnalysisError(f"{fn.fq}: unreadable comprehension target")
+            if isinstance(d.key, ast.Name) and d.key.id in env:
+                lbl = env[d.key.id]
+            else:
+                lbl = prog.fold(fn.module, d.key)
+            out.append(entry(lbl, d.value, env))
+        return out
+    raise AnalysisError(f"{fn.fq}: expected a dict literal or a dict comprehension over a constant table")
+
+
 def rule_stats_map(ctx: Ctx, prog: Program) -> None:
     ctx.rule("R-STATS-MAP")
     IDX = _idx(prog)
@@ -241,54 +322,48 @@ def rule_stats_map(ctx: Ctx, prog: Program) -> None:
     for mod, cls, agg in ((f"{prog.package}.solvers.backtrack_solver", "BacktrackSolver", False), (f"{prog.package}.solvers.multiprocessing_solver", "MultiprocessingSolver", True)):
         fn = prog.func(mod, f"{cls}.get_statistics")
         ctx.fn(fn.fq)
-        rets = [n for n in ast.walk(fn.node) if isinstance(n, ast.Return) and isinstance(n.value, ast.Dict)]
-        if len(rets) != 1:
-            raise AnalysisError(f"{fn.fq}: expected one dict literal")
-        d = rets[0].value
+        entries = _stats_entries(prog, fn)
         seen = set()
-        for k, v in zip(d.keys, d.values):
-            lbl = prog.fold(fn.module, k) if k is not None else NO
+        for lbl, idx_val, aggname, src, line, whole in entries:
             if not isinstance(lbl, str) or lbl not in IDX:
-                ctx.violation("R-STATS-MAP", fn.path, fn.qualname, f"key:{ast.unparse(k) if k else '?'}", f"{fn.path}:{getattr(k, 'lineno', 0)}", "unknown statistics label")
+                ctx.violation("R-STATS-MAP", fn.path, fn.qualname, f"key:{lbl}", f"{fn.path}:{line}", "unknown statistics label")
                 continue
             seen.add(lbl)
-            idx_names = [n for n in ast.walk(v) if isinstance(n, ast.Name) and prog.fold(fn.module, n) is not NO and n.id.startswith("STATS_IDX_")]
-            src = ast.unparse(v)
-            okk = len(idx_names) == 1 and prog.fold(fn.module, idx_names[0]) == IDX[lbl] and "self.statistics" in src
+            okk = idx_val == IDX[lbl] and whole
+            want = ""
             if agg:
-                want = "max_stats" if lbl == "SOLVER_CHOICE_DEPTH" else "sum_stats"
-                okk = okk and isinstance(v, ast.Call) and isinstance(v.func, ast.Name) and v.func.id == want and len(v.args) == 2 \
-                    and ast.unparse(v.args[0]) == "self.statistics"
+                want = "max" if lbl == "SOLVER_CHOICE_DEPTH" else "sum"
+                r_ = prog.resolve(fn.module, aggname) if aggname else None
+                okk = okk and bool(r_) and r_[0] == "func" and _agg_kind(r_[1]) == want
+                want += " over the workers"
             else:
-                okk = okk and src.replace(" ", "") in (f"int(self.statistics[{idx_names[0].id}])", f"self.statistics[{idx_names[0].id}]") if idx_names else False
+                okk = okk and aggname in (None, "int")
             if okk:
                 ctx.ok("R-STATS-MAP", f"{cls}: {lbl} <- index {IDX[lbl]}" + (f" via {want}" if agg else ""), sample={"expr": src})
             else:
-                ctx.violation("R-STATS-MAP", fn.path, fn.qualname, f"entry:{lbl}", f"{fn.path}:{getattr(v, 'lineno', 0)}",
-                              f"{cls}.get_statistics: '{lbl}' is computed by {src}; expected the counter with the same name"
-                              + (f" aggregated with {want}" if agg else ""))
+                ctx.violation("R-STATS-MAP", fn.path, fn.qualname, f"entry:{lbl}", f"{fn.path}:{line}",
+                              f"{cls}.get_statistics: '{lbl}' is computed by {src}" + (f" (index {idx_val})" if idx_val is not None else "")
+                              + "; expected the counter with the same name" + (f" aggregated with {want}" if agg else ""))
         missing = set(STAT_NAMES) - seen
         if missing:
             ctx.violation("R-STATS-MAP", fn.path, fn.qualname, "missing", fn.loc(), f"{cls}.get_statistics omits {sorted(missing)}")
         else:
             ctx.ok("R-STATS-MAP", f"{cls}: all 13 statistics reported")
-    # aggregators
+    # aggregators: every function used to aggregate must be sum / max of int(s[index]) over every worker
     mod = f"{prog.package}.solvers.multiprocessing_solver"
-    for name, builtin in (("sum_stats", "sum"), ("max_stats", "max")):
-        fn = prog.func(mod, name)
-        body = [s for s in fn.node.body if not (isinstance(s, ast.Expr) and isinstance(s.value, ast.Constant))]
-        okk = False
-        if len(body) == 1 and isinstance(body[0], ast.Return) and isinstance(body[0].value, ast.Call):
-            c = body[0].value
-            if isinstance(c.func, ast.Name) and c.func.id == builtin and len(c.args) == 1 and isinstance(c.args[0], (ast.GeneratorExp, ast.ListComp)):
-                g = c.args[0]
-                if len(g.generators) == 1 and not g.generators[0].ifs and ast.unparse(g.generators[0].iter) == fn.params[0]:
-                    tv = ast.unparse(g.generators[0].target)
-                    okk = ast.unparse(g.elt).replace(" ", "") in (f"int({tv}[{fn.params[1]}])", f"{tv}[{fn.params[1]}]")
-        if okk:
-            ctx.ok("R-STATS-MAP", f"{name} = {builtin} over all workers of the counter at the given index")
+    mp = prog.func(mod, "MultiprocessingSolver.get_statistics")
+    used = sorted({a for _, _, a, _, _, _ in _stats_entries(prog, mp) if a})
+    for name in used:
+        r = prog.resolve(mod, name)
+        if not (r and r[0] == "func"):
+            ctx.violation("R-STATS-MAP", mp.path, name, "aggregator", mp.loc(), f"{name} is not a function of the package")
+            continue
+        kind = _agg_kind(r[1])
+        if kind:
+            ctx.ok("R-STATS-MAP", f"{name} = {kind} over all workers of the counter at the given index")
         else:
-            ctx.violation("R-STATS-MAP", fn.path, name, "aggregator", fn.loc(), f"{name} must be {builtin}(int(s[index]) for s in stats) over every worker")
+            ctx.violation("R-STATS-MAP", r[1].path, name, "aggregator", r[1].loc(), f"{name} must be sum / max of int(s[index]) for s in stats over every worker")
+    ctx.floor("R-STATS-MAP:aggregators", len(used), 2)
     # the statistics array has STATS_MAX int64 cells
     fn = prog.func(f"{prog.package}.solvers.backtrack_solver", "BacktrackSolver.__init__")
     src = ast.unparse(fn.node)
